@@ -81,4 +81,13 @@ def plan(tier, seed):
     for n in (3, 5):
         for route in (6, 7):
             q("sqr%d-%dx%d" % (route, n, n), {"MM": n, "LL": n, "NN": n, "ROUTE": route, "SQUARE": None, "CMODE": 1, "KINIT": 8}, timeout=1200)
+    # ---- Strassen-Winograd routes: modular index-level check, symbolic dimensions and cutoff (DESIGN F22)
+    REN = {"_mzd_mul_even": "L1__mzd_mul_even", "_mzd_sqr_even": "L1__mzd_sqr_even", "_mzd_addmul_even": "L1__mzd_addmul_even", "_mzd_addsqr_even": "L1__mzd_addsqr_even",
+           "mzd_mul": "L1_mzd_mul", "mzd_addmul": "L1_mzd_addmul", "_mzd_addmul": "L1__mzd_addmul"}
+    RC = {"L1__mzd_mul_even": "stub_rec_mul", "L1__mzd_sqr_even": "stub_rec_sqr", "L1__mzd_addmul_even": "stub_rec_mul", "L1__mzd_addsqr_even": "stub_rec_sqr",
+          "L1_mzd_mul": "stub_mzd_mul", "mzd_init_window": "stub_init_window", "mzd_init": "stub_init", "mzd_free": "stub_free", "mzd_copy": "stub_copy",
+          "_mzd_add": "stub_add", "_mzd_mul_m4rm": "stub_mul_m4rm", "mzd_addmul_m4rm": "stub_addmul_m4rm"}
+    for fn in range(6):
+        qs.append(Q("strassen-shape-f%d" % fn, "c01_shape.c", {"FUNC": fn, "MAXDIM": 1100}, group="c01-strassen-shape", renamed_tus={"strassen.c": REN}, replace_in_renamed=RC, stub_source="c01_shape_stubs.c",
+                    checks="safety", timeout=1500, fallback="kissat", mem_gb=8, unwindset={"L1_.*": 12, "empty_split.*": 12}))
     return qs
